@@ -102,39 +102,74 @@ func buildMd(r *rand.Rand, toks []gram.FTok) mdDoc {
 		}
 		return "\n"
 	}
-	write(prose(r))
-	open := false
-	for li := 0; li <= len(lines); li++ {
-		if li == len(lines) || cuts[li] || !open {
-			if open {
-				write("```" + nl())
-				write(prose(r))
-				if r.Intn(8) == 0 { // an empty block
-					write("```" + nl() + "```" + nl())
-					write(prose(r))
-				}
-				open = false
+	// group the lines into blocks at the cut points
+	var blocks [][][]int
+	var cur [][]int
+	for li, l := range lines {
+		if cuts[li] && len(cur) > 0 {
+			blocks = append(blocks, cur)
+			cur = nil
+		}
+		cur = append(cur, l)
+	}
+	if len(cur) > 0 {
+		blocks = append(blocks, cur)
+	}
+	proseWordsInline := func() string {
+		var sb2 strings.Builder
+		for w := r.Intn(5); w > 0; w-- {
+			word := proseWords[r.Intn(len(proseWords))]
+			if strings.Contains(word, "`") || word == "\t" {
+				word = "é—x"
 			}
-			if li == len(lines) {
-				break
-			}
-			write("```" + nl())
-			open = true
+			sb2.WriteString(word)
+			sb2.WriteString(" ")
 		}
-		if r.Intn(3) == 0 {
-			write(strings.Repeat(" ", r.Intn(4)))
-		}
-		if r.Intn(6) == 0 {
-			write("\t")
-		}
-		for k, ti := range lines[li] {
+		return sb2.String()
+	}
+	writeLine := func(l []int) {
+		for k, ti := range l {
 			if k > 0 {
 				write(" ")
 			}
 			doc.line[ti], doc.col[ti] = curLine, curCol
 			write(toks[ti].Text)
 		}
-		write(nl())
+	}
+	write(prose(r))
+	for _, blk := range blocks {
+		if r.Intn(3) == 0 {
+			// inline fences: prose, the opening fence, code and the closing fence share lines
+			write(proseWordsInline())
+			write("``` ")
+			for li, l := range blk {
+				if li > 0 {
+					write(nl())
+				}
+				writeLine(l)
+			}
+			write(" ```")
+			write(" " + proseWordsInline())
+			write(nl())
+		} else {
+			write("```" + nl())
+			for _, l := range blk {
+				if r.Intn(3) == 0 {
+					write(strings.Repeat(" ", r.Intn(4)))
+				}
+				if r.Intn(6) == 0 {
+					write("\t")
+				}
+				writeLine(l)
+				write(nl())
+			}
+			write("```" + nl())
+		}
+		write(prose(r))
+		if r.Intn(8) == 0 { // an empty block
+			write("```" + nl() + "```" + nl())
+			write(prose(r))
+		}
 	}
 	s := sb.String()
 	switch r.Intn(6) {
@@ -152,7 +187,7 @@ var posRe = regexp.MustCompile(`@ (\d+):(\d+)`)
 
 func runC19(c *Ctx) error {
 	n := c.Pick(100, 2000)
-	c.Rule = "grammars laid out in 1-6 bare ``` fenced blocks (fences on their own lines) between random prose (inline back-quotes, non-ASCII, CRLF, tabs, empty blocks, file ending right after a fence); (a) x.md versus the concatenated fenced text as x.bnf, same directory and package path: generated .go files must be byte-identical; (b) the same .md with one stray token injected into the lexical part: the diagnostic's line:column must be the token's line and rune column in the .md file; one evaluation = one pair or one diagnostic; non-trivial = document with at least two blocks or prose before the first block; distinct by .md text"
+	c.Rule = "grammars laid out in 1-6 bare ``` fenced blocks (fences on their own lines, or inline on a line shared with prose) between random prose (inline back-quotes, non-ASCII, CRLF, tabs, empty blocks, file ending right after a fence); (a) x.md versus the concatenated fenced text as x.bnf, same directory and package path: generated .go files must be byte-identical; (b) the same .md with one stray token injected into the lexical part: the diagnostic's line:column must be the token's line and rune column in the .md file; one evaluation = one pair or one diagnostic; non-trivial = document with at least two blocks or prose before the first block; distinct by .md text"
 	c.Assumptions = []string{"fenced text is extracted by the harness's own 10-line reader of the property's definition", "only valid UTF-8 documents (md.go converts through []rune)"}
 	if err := twinModules(c); err != nil {
 		return err
@@ -168,7 +203,7 @@ func runC19(c *Ctx) error {
 	}
 	run.Parallel(len(units), func(i int) {
 		u := units[i]
-		mdUnit(c, u.g, u.seed, u.inject, fmt.Sprintf("g%05d", i), i%401 == 0)
+		mdUnit(c, u.g, u.seed, u.inject, fmt.Sprintf("g%05d", i), i%97 == 0)
 	})
 	return nil
 }
